@@ -131,6 +131,16 @@ def search(ctx):
             if why:
                 break
             prev = tl
+        # a socket on which a socket call failed is not kept, whatever the call made of the error (ignore_exc swallows it)
+        if why is None:
+            for (fop, fsid, kind, tlen) in world.faults:
+                if fsid is None or kind == 9 or fop < 0 or fop >= len(world.bounds):
+                    continue
+                tl, sid = world.bounds[fop]
+                if sid == fsid:
+                    why = ("a socket call (event kind %d) failed on socket %d during call %d (result %r) but self.sock is still that socket: "
+                           "the next call will run on a connection in an unknown state" % (kind, fsid, fop, results[fop]))
+                    break
         # "after any failed call the next call opens a fresh connection and works": faults only in the first call
         if why is None and len(sc) + len(ch) > 0 and results[0][0] == "e" and results[0][1] not in input_errors:
             used = world.pos
